@@ -501,10 +501,11 @@ pinned constraint system — all four remaining fields of `VerifyingKey` besides
 `transcript_repr` itself; (c) every field of `ConstraintSystem` except the three listed ones
 (`unblinded_advice_columns`: prover-side blinding only; `num_advice_queries`: a count derived from `advice_queries`;
 `general_column_annotations`: debugging names) is a member of `PinnedConstraintSystem`, and every member is printed
-by its `Debug` — `num_challenges`, `advice_column_phase`, `challenge_phase` only when `num_challenges > 0`
-(with no challenge `challenge_phase` is empty; the phase of a QUERIED advice column is still printed inside
-`advice_queries`, that of an unqueried one is not — see `checks/c03.py`). A new field the verifier would use but
-`pinned()` / `Debug` forgets makes this theorem fail. -/
+by its `Debug` — `num_challenges`, `advice_column_phase`, `challenge_phase` only under the condition of
+`pinned_phase_condition` (a challenge exists or some advice column is in a later phase: when they are not printed,
+`challenge_phase` is empty and every advice column is in the first phase, so nothing is lost — see
+`vk_repr_injective_on_verifier_view_partial`). A new field the verifier would use but `pinned()` / `Debug` forgets
+makes this theorem fail. -/
 theorem vk_repr_covers :
     Gen.vkHashInto = ["transcript_repr"] ∧
     Gen.vkInputOrder = ["version", "k", "nfixed", "fixed", "nperm", "perm", "domain", "cs"] ∧
@@ -770,11 +771,22 @@ theorem instance_eval_binds_exec (f : C02.Ids.Fld) [Fact f.p.Prime] (hp2 : 2 < f
   instanceEvals_binds f hp2 cs hω nCommitted maxLen plainA plainB cev qi hqi hplain colA colB hA hB hlenEq hlen hln
     hvA hvB hne S hS
 
-/-! ## (9) What `transcript_repr` covers of the constraint system, and the one field it does not -/
+/-! ## (9) What `transcript_repr` covers of the constraint system -/
 
-/-- The order of the printed fields as the source has it TODAY, for both cases of the `num_challenges > 0` test. -/
-theorem csDebugFieldNames_eq (nch : Nat) :
-    csDebugFieldNames nch = if 0 < nch then
+/-- **The condition of the multi-phase fields, as the source has it TODAY** (regenerated): the fields
+`num_challenges`, `advice_column_phase`, `challenge_phase` are printed iff there is a challenge OR some advice column
+is not in the first phase. Before the repair (only `num_challenges > 0`) the phase of an unqueried advice column of a
+circuit without challenges was in no printed field: this statement, and with it
+`vk_repr_injective_on_verifier_view_partial`, fails for the old condition. -/
+theorem pinned_phase_condition (nch : Nat) (ap : List Nat) :
+    Gen.csDebugPhaseCondition = ["num_challenges>0", "advice_phase_not_first"] ∧
+    showPhaseFields nch ap = (decide (0 < nch) || ap.any (· != 0)) := by
+  refine ⟨by decide, ?_⟩
+  simp [showPhaseFields, Gen.csDebugPhaseCondition, phaseCondHolds]
+
+/-- The order of the printed fields as the source has it TODAY, with and without the multi-phase block. -/
+theorem csDebugFieldNames_eq (sh : Bool) :
+    csDebugFieldNames sh = if sh then
         ["num_fixed_columns", "num_advice_columns", "num_instance_columns", "num_selectors", "num_challenges",
           "advice_column_phase", "challenge_phase", "gates", "advice_queries", "instance_queries", "fixed_queries",
           "permutation", "lookups", "trashcans", "constants", "minimum_degree"]
@@ -782,79 +794,101 @@ theorem csDebugFieldNames_eq (nch : Nat) :
         ["num_fixed_columns", "num_advice_columns", "num_instance_columns", "num_selectors", "gates",
           "advice_queries", "instance_queries", "fixed_queries", "permutation", "lookups", "trashcans", "constants",
           "minimum_degree"] := by
-  by_cases h : 0 < nch <;> simp [csDebugFieldNames, Gen.csDebugOrder, h]
+  cases sh <;> simp [csDebugFieldNames, Gen.csDebugOrder]
 
 private theorem aq_eq {a b : CSView}
     (h : (a.adviceQueries.map fun q => (q.1, shownPhase (a.advicePhase.getD q.1 0), q.2))
        = (b.adviceQueries.map fun q => (q.1, shownPhase (b.advicePhase.getD q.1 0), q.2))) :
-    a.adviceQueries = b.adviceQueries ∧
-    ∀ q ∈ a.adviceQueries, shownPhase (a.advicePhase.getD q.1 0) = shownPhase (b.advicePhase.getD q.1 0) := by
+    a.adviceQueries = b.adviceQueries := by
   have h1 := congrArg (List.map fun t : Nat × Option Nat × Int => (t.1, t.2.2)) h
-  simp only [List.map_map, Function.comp_def, Prod.mk.eta, List.map_id'] at h1
-  refine ⟨h1, ?_⟩
-  rw [← h1] at h
-  intro q hq
-  have := (List.map_inj_left.mp h) q hq
-  simpa using this
+  simpa only [List.map_map, Function.comp_def, Prod.mk.eta, List.map_id'] using h1
 
-/-- **`vk_repr_injective_on_verifier_view` (partial — with the exact exception).** The `cs` component of the buffer
-hashed into `transcript_repr` is a function of `pinnedFields` (the (name, value) pairs `Debug for
-PinnedConstraintSystem` prints, in the order regenerated from the source). Two constraint systems with the same
-`pinnedFields` agree on EVERY member of `PinnedConstraintSystem` except possibly `advice_column_phase`; they agree on
-`advice_column_phase` too as soon as there is a challenge; without a challenge they still agree on what
-`Debug for Advice` shows of the phase of every QUERIED advice column. What is left uncovered is exactly: the phase
-of an advice column that no gate / lookup / copy constraint queries, in a circuit without challenges — a field the
-verifier does read (`parse_trace` reads the advice commitments phase by phase: `adviceReadOrder`). PARTIAL in this
-respect (exhibited on the real code by the harness, finding `vk-component-not-in-repr:advice-phase-unqueried`), and
-in that the injectivity of the `Debug` rendering of the individual values is not modelled. -/
-theorem vk_repr_injective_on_verifier_view_partial (a b : CSView) (h : pinnedFields a = pinnedFields b) :
-    a = { b with advicePhase := a.advicePhase } ∧
-    (∀ q ∈ a.adviceQueries, shownPhase (a.advicePhase.getD q.1 0) = shownPhase (b.advicePhase.getD q.1 0)) ∧
-    (0 < a.challengePhase.length → verifierView a = verifierView b) := by
+/-- A phase list without a later phase is all zeros. -/
+private theorem all_zero_of_not_any : ∀ (l : List Nat), l.any (· != 0) = false → l = List.replicate l.length 0
+  | [], _ => rfl
+  | x :: t, h => by
+    simp only [List.any_cons, Bool.or_eq_false_iff, bne_eq_false_iff_eq] at h
+    rw [List.length_cons, List.replicate_succ, h.1, ← all_zero_of_not_any t h.2]
+
+/-- Well-formed view: one phase per advice column (`advice_column_in` pushes to `advice_column_phase` and increments
+`num_advice_columns` together). -/
+abbrev CSView.WF (v : CSView) : Prop := v.advicePhase.length = v.numAdvice
+
+/-- **`vk_repr_injective_on_verifier_view` — no constraint-system field is left out any more.** The `cs` component of
+the buffer hashed into `transcript_repr` is a function of `pinnedFields` (the (name, value) pairs `Debug for
+PinnedConstraintSystem` prints, order and condition regenerated from the source). Two well-formed constraint systems
+with the same `pinnedFields` are EQUAL as `CSView`s — every member of `PinnedConstraintSystem`, including
+`advice_column_phase` (when the multi-phase block is not printed, both systems have every advice column in the first
+phase, and the number of advice columns is printed) — so their verifiers read the same things in the same order
+(`verifierView`, `adviceReadOrder`). Still named `_partial` for ONE stated reason only: the `Debug` formatting of
+the individual members (gates, query lists, permutation, lookups, trashcans, constants, `minimum_degree`) is opaque
+in the model, i.e. that two different values of such a member are printed differently is assumed, not proved. -/
+theorem vk_repr_injective_on_verifier_view_partial (a b : CSView) (wa : a.WF) (wb : b.WF)
+    (h : pinnedFields a = pinnedFields b) : a = b ∧ verifierView a = verifierView b := by
+  suffices hab : a = b from ⟨hab, by rw [hab]⟩
   unfold pinnedFields at h
   rw [csDebugFieldNames_eq, csDebugFieldNames_eq] at h
-  by_cases ha : 0 < a.challengePhase.length <;> by_cases hb : 0 < b.challengePhase.length
+  have ca := (pinned_phase_condition a.challengePhase.length a.advicePhase).2
+  have cb := (pinned_phase_condition b.challengePhase.length b.advicePhase).2
+  cases ha : showPhaseFields a.challengePhase.length a.advicePhase <;>
+    cases hb : showPhaseFields b.challengePhase.length b.advicePhase
+  · -- block shown for neither: no challenge, every phase is the first one
+    simp only [ha, hb, Bool.false_eq_true, if_false, List.map_cons, List.map_nil, fieldValue, List.cons.injEq,
+      Prod.mk.injEq, true_and, Option.some.injEq, FieldVal.nat.injEq, FieldVal.str.injEq, FieldVal.aq.injEq,
+      and_true] at h
+    obtain ⟨h1, h2, h3, h4, h8, h9, h10, h11, h12, h13, h14, h15, h16⟩ := h
+    have hq := aq_eq h9
+    rw [ha] at ca
+    rw [hb] at cb
+    simp only [Bool.false_eq, Bool.or_eq_false_iff, decide_eq_false_iff_not, Nat.not_lt, Nat.le_zero_eq] at ca cb
+    have ea : a.challengePhase = [] := List.eq_nil_of_length_eq_zero ca.1
+    have eb : b.challengePhase = [] := List.eq_nil_of_length_eq_zero cb.1
+    have pa := all_zero_of_not_any _ ca.2
+    have pb := all_zero_of_not_any _ cb.2
+    have hp : a.advicePhase = b.advicePhase := by
+      rw [pa, pb, wa, wb, h2]
+    have hc : a.challengePhase = b.challengePhase := by rw [ea, eb]
+    cases a; cases b
+    simp only [CSView.mk.injEq]
+    exact ⟨h1, h2, h3, h4, hp, hc, hq, h8, h10, h11, h12, h13, h14, h15, h16⟩
+  · exfalso
+    simp only [ha, hb, if_true, Bool.false_eq_true, if_false, List.map_cons, List.map_nil] at h
+    have := congrArg List.length h
+    simp at this
+  · exfalso
+    simp only [ha, hb, if_true, Bool.false_eq_true, if_false, List.map_cons, List.map_nil] at h
+    have := congrArg List.length h
+    simp at this
   · simp only [ha, hb, if_true, List.map_cons, List.map_nil, fieldValue, List.cons.injEq, Prod.mk.injEq, true_and,
       Option.some.injEq, FieldVal.nat.injEq, FieldVal.nats.injEq, FieldVal.str.injEq, FieldVal.aq.injEq, and_true] at h
     obtain ⟨h1, h2, h3, h4, _, h6, h7, h8, h9, h10, h11, h12, h13, h14, h15, h16⟩ := h
-    obtain ⟨hq, hph⟩ := aq_eq h9
-    refine ⟨?_, hph, fun _ => ?_⟩
-    · cases a; cases b; simp_all
-    · unfold verifierView; cases a; cases b; simp_all
-  · exfalso
-    simp only [ha, hb, if_true, if_false, List.map_cons, List.map_nil] at h
-    have := congrArg List.length h
-    simp at this
-  · exfalso
-    simp only [ha, hb, if_true, if_false, List.map_cons, List.map_nil] at h
-    have := congrArg List.length h
-    simp at this
-  · simp only [ha, hb, if_false, List.map_cons, List.map_nil, fieldValue, List.cons.injEq, Prod.mk.injEq, true_and,
-      Option.some.injEq, FieldVal.nat.injEq, FieldVal.str.injEq, FieldVal.aq.injEq, and_true] at h
-    obtain ⟨h1, h2, h3, h4, h8, h9, h10, h11, h12, h13, h14, h15, h16⟩ := h
-    obtain ⟨hq, hph⟩ := aq_eq h9
-    have ea : a.challengePhase = [] := List.eq_nil_of_length_eq_zero (by omega)
-    have eb : b.challengePhase = [] := List.eq_nil_of_length_eq_zero (by omega)
-    refine ⟨?_, hph, fun hpos => absurd hpos ha⟩
-    cases a; cases b; simp_all
+    have hq := aq_eq h9
+    cases a; cases b
+    simp only [CSView.mk.injEq]
+    exact ⟨h1, h2, h3, h4, h6, h7, hq, h8, h10, h11, h12, h13, h14, h15, h16⟩
 
-/-- **The gap is real (model side).** Two constraint systems — the shape of the harness's `MiniCircuit` with its
-unqueried advice column `u` in the second resp. first phase, no challenge — have the same `pinnedFields` (hence the
-same `transcript_repr` input), but their verifiers read the advice commitments in different orders, and the
-Fiat–Shamir schedules of C01 differ. The harness observes the same on the real code: equal `transcript_repr`, equal
-`Debug` strings, different `advice_column_phase`. -/
-theorem vk_repr_gap_exhibited :
+/-- **The former gap is closed (regression pair).** The two constraint systems of the harness's `MiniCircuit` pair —
+unqueried advice column `u` in the second resp. first phase, no challenge — whose verifiers read the advice
+commitments in different orders (and whose C01 schedules differ) now have DIFFERENT `pinnedFields`: the first one
+prints `advice_column_phase: [0, 1, 0]`. (With the condition of the code before the repair their `pinnedFields`
+were equal.) The harness checks the same on the real code on every run: the two `transcript_repr`s differ and the
+cross-verification is rejected. -/
+theorem pinned_fields_separate_phase_pair :
     let a : CSView := ⟨1, 3, 2, 1, [0, 1, 0], [], [(0, 0), (2, 0)], "g", "i", "f", "p", "l", "t", "c", "m"⟩
     let b : CSView := { a with advicePhase := [0, 0, 0] }
-    pinnedFields a = pinnedFields b ∧ verifierView a ≠ verifierView b ∧
+    a.WF ∧ b.WF ∧ pinnedFields a ≠ pinnedFields b ∧
+    (pinnedFields a).lookup "advice_column_phase" = some (some (.nats [0, 1, 0])) ∧
+    (pinnedFields b).lookup "advice_column_phase" = none ∧
     adviceReadOrder a.advicePhase = [0, 2, 1] ∧ adviceReadOrder b.advicePhase = [0, 1, 2] ∧
     let sh (ap : List Nat) : Shape := ⟨ap, [], [(0, 0), (2, 0)], [(0, 0), (1, 0)], [(0, 0)], 0, 0, 4, 3, 5, 4⟩
     verifierSchedule (sh [0, 1, 0]) ⟨1, 0, [[1, 1]]⟩ ≠ verifierSchedule (sh [0, 0, 0]) ⟨1, 0, [[1, 1]]⟩ := by
   decide
 
-/-- With at least one challenge nothing is left out: equal printed fields give equal constraint-system views
-(non-vacuity of the last clause of `vk_repr_injective_on_verifier_view_partial`). -/
+/-- Non-vacuity of `vk_repr_injective_on_verifier_view_partial`: a well-formed view with a challenge, and one
+without challenge and without later phase. -/
 example : let a : CSView := ⟨1, 2, 1, 1, [0, 1], [0], [(0, 0)], "g", "i", "f", "p", "l", "t", "c", "m"⟩
-    0 < a.challengePhase.length ∧ pinnedFields a = pinnedFields a := by decide
+    let b : CSView := ⟨1, 2, 1, 1, [0, 0], [], [(0, 0)], "g", "i", "f", "p", "l", "t", "c", "m"⟩
+    a.WF ∧ b.WF ∧ pinnedFields a = pinnedFields a ∧ (pinnedFields a).length = 16 ∧ (pinnedFields b).length = 13 := by
+  decide
 
 end MidnightZK.C03
